@@ -22,9 +22,10 @@ ByteStrs == UpTo(<<97, 233, 128512, 43, 32, 37>>, 2) \o [i \in DOMAIN ByteAlpha 
 CsvAlpha == <<97, 44, 9, 34, 10, 32, 59, 233, 45, 35>>
 CsvFields == SelectSeq(UpTo(CsvAlpha, 2), LAMBDA f : TRUE) \o << <<34, 97, 34>>, <<97, 34, 34, 98>>, <<97, 10, 98, 10>>, <<44, 44, 44>>, <<97, 13, 10, 98>>, <<39, 97, 39>> >>
 PropKeyAlpha == <<97, 32, 61, 58, 35, 33, 92, 233, 45, 42, 63>>      \* (`*` and `?` are characters of a key, not wildcards)
-PropValAlpha == <<97, 32, 61, 58, 35, 33, 92, 10, 9, 233>>
+PropValAlpha == <<97, 32, 61, 58, 35, 33, 92, 10, 9, 233, 36, 123>>      \* (`${` in a value is text, not a reference to expand)
 PropKeys == SelectSeq(UpTo(PropKeyAlpha, 2), LAMBDA k : k # <<>>)
-PropVals == UpTo(PropValAlpha, 2) \o << <<97, 32, 32, 98>>, <<92, 110>>, <<92, 117, 48, 48, 52, 49>>, <<32, 32, 97>>, <<97, 32, 32>> >>
+PropVals == UpTo(PropValAlpha, 2) \o << <<97, 32, 32, 98>>, <<92, 110>>, <<92, 117, 48, 48, 52, 49>>, <<32, 32, 97>>, <<97, 32, 32>>,
+                                        <<36, 123, 107, 49, 125>>, <<36, 123, 97, 125>>, <<36, 123, 125>> >>      \* ${k1} (the entry's own key), ${a}, ${}
 XmlAlpha == <<97, 60, 62, 38, 34, 39, 233, 93>>
 XmlTexts == SelectSeq(UpTo(XmlAlpha, 2), LAMBDA t : t # <<>>) \o << <<97, 32, 98>>, <<38, 97, 109, 112, 59>>, <<93, 93, 62>>, <<60, 33, 45, 45>> >>
 LuaAlpha == <<97, 34, 92, 10, 9, 1, 233, 93, 39, 127, 48>>
